@@ -13,14 +13,118 @@ import (
 	"go/parser"
 	"go/token"
 	"os"
+	"strconv"
 	"strings"
 	"unicode"
 )
 
 type req struct {
-	Dir   string   `json:"dir"`
-	Files []string `json:"files"`
-	Names []string `json:"names"` // instead of a directory: what Go's unicode tables say about these strings
+	Dir    string   `json:"dir"`
+	Files  []string `json:"files"`
+	Names  []string `json:"names"`  // instead of a directory: what Go's unicode tables say about these strings
+	Idents string   `json:"idents"` // instead of a directory: a Go file; every identifier it DECLARES is reported
+}
+
+// declared is one identifier declared by a file: at package level, as the local name of an import, or
+// anywhere inside a function body (variables, constants, types, closures' parameters, range variables).
+type declared struct {
+	Name  string `json:"name"`
+	Where string `json:"where"` // package | import | local
+}
+
+func declaredIdents(path string) ([]declared, error) {
+	fset := token.NewFileSet()
+	f, err := parser.ParseFile(fset, path, nil, 0)
+	if err != nil {
+		return nil, err
+	}
+	seen := map[declared]bool{}
+	var out []declared
+	add := func(n, where string) {
+		d := declared{n, where}
+		if n != "" && n != "_" && !seen[d] {
+			seen[d] = true
+			out = append(out, d)
+		}
+	}
+	for _, imp := range f.Imports {
+		if imp.Name != nil {
+			add(imp.Name.Name, "import")
+		} else if p, err := strconv.Unquote(imp.Path.Value); err == nil {
+			add(p[strings.LastIndex(p, "/")+1:], "import")
+		}
+	}
+	depth := 0
+	var fields func(fl *ast.FieldList)
+	fields = func(fl *ast.FieldList) {
+		if fl == nil {
+			return
+		}
+		for _, fd := range fl.List {
+			for _, n := range fd.Names {
+				add(n.Name, "local")
+			}
+		}
+	}
+	where := func() string {
+		if depth > 0 {
+			return "local"
+		}
+		return "package"
+	}
+	var walk func(n ast.Node)
+	walk = func(n ast.Node) {
+		ast.Inspect(n, func(n ast.Node) bool {
+			switch x := n.(type) {
+			case *ast.FuncDecl:
+				add(x.Name.Name, "package")
+				fields(x.Recv)
+				fields(x.Type.Params)
+				fields(x.Type.Results)
+				if x.Body != nil {
+					depth++
+					walk(x.Body)
+					depth--
+				}
+				return false
+			case *ast.FuncLit:
+				fields(x.Type.Params)
+				fields(x.Type.Results)
+			case *ast.GenDecl:
+				for _, sp := range x.Specs {
+					switch s := sp.(type) {
+					case *ast.ValueSpec:
+						for _, n := range s.Names {
+							add(n.Name, where())
+						}
+					case *ast.TypeSpec:
+						add(s.Name.Name, where())
+					}
+				}
+			case *ast.AssignStmt:
+				if x.Tok == token.DEFINE {
+					for _, l := range x.Lhs {
+						if id, ok := l.(*ast.Ident); ok {
+							add(id.Name, "local")
+						}
+					}
+				}
+			case *ast.RangeStmt:
+				if x.Tok == token.DEFINE {
+					for _, l := range []ast.Expr{x.Key, x.Value} {
+						if id, ok := l.(*ast.Ident); ok {
+							add(id.Name, "local")
+						}
+					}
+				}
+			case *ast.LabeledStmt:
+				add(x.Label.Name, "local")
+			}
+			return true
+		})
+	}
+	walk(f)
+	return out, nil
 }
 
 // nameInfo is Go's own answer about a string used as (part of) an identifier or command-line word.
@@ -76,6 +180,7 @@ type val struct {
 }
 
 type answer struct {
+	Idents []declared `json:"idents,omitempty"`
 	Names  []nameInfo `json:"names,omitempty"`
 	Err    string     `json:"err,omitempty"`
 	PkgDoc string     `json:"pkgdoc"`
@@ -146,6 +251,15 @@ func main() {
 		var r req
 		if err := json.Unmarshal(in.Bytes(), &r); err != nil {
 			enc.Encode(answer{Err: "bad request: " + err.Error()})
+			continue
+		}
+		if r.Idents != "" {
+			ids, err := declaredIdents(r.Idents)
+			a := answer{Idents: ids}
+			if err != nil {
+				a.Err = err.Error()
+			}
+			enc.Encode(a)
 			continue
 		}
 		if r.Names != nil {
